@@ -77,6 +77,12 @@ def main():
             out['demo_without_patch'] = rc0
         rc, o = sh('git -C %s apply %s' % (wt, patch))
         if rc:
+            # the repository moved on since the change was recorded (repairs
+            # next to its context lines): merge it in
+            rc, o2 = sh('git -C %s apply --3way %s' % (wt, patch))
+            out['applied_with_3way'] = rc == 0
+            o += o2
+        if rc:
             out['apply_failed'] = o[-500:]
             print(json.dumps(out, indent=1))
             return 2
